@@ -47,6 +47,61 @@ GEN = {  # cfg -> (NK, gaps) of the route universe it enumerates
 }
 
 
+_LOCAL = threading.local()
+_COUNT_LOCK = threading.Lock()
+
+
+def _thread_safe(ctx):
+    """lib/verif.py numbers its run directories with ctx._nrun; give every thread its own range so that the
+    TLC runs this check overlaps (state machine | generation + replay | validation) never share a directory."""
+    base = {"n": 0}
+
+    def get(self):
+        if getattr(_LOCAL, "n", None) is None:
+            with _COUNT_LOCK:
+                base["n"] += 200
+                _LOCAL.n = base["n"]
+        return _LOCAL.n
+
+    def put(self, v):
+        _LOCAL.n = v
+
+    ctx.__dict__.pop("_nrun", None)
+    ctx.__class__ = type("C15Ctx", (ctx.__class__,), {"_nrun": property(get, put)})
+
+
+def tlc_run(ctx, *a, **k):
+    counted = k.pop("counted", False)
+    k["count"] = False
+    r = ctx.tlc(*a, **k)
+    if counted:
+        with _COUNT_LOCK:
+            ctx.states += r.distinct
+            ctx.transitions += r.generated
+    return r
+
+
+class Bg(threading.Thread):
+    """A step that only runs TLC, overlapped with the main thread; its exception is re-raised by done()."""
+
+    def __init__(self, fn):
+        super().__init__()
+        self.fn, self.exc, self.val = fn, None, None
+        self.start()
+
+    def run(self):
+        try:
+            self.val = self.fn()
+        except BaseException as ex:
+            self.exc = ex
+
+    def done(self):
+        self.join()
+        if self.exc:
+            raise self.exc
+        return self.val
+
+
 def incon(why):
     raise verif.Inconclusive(why)
 
@@ -83,8 +138,8 @@ def validate_traces(ctx, files, label):
     for f in files:
         events = verif.read_ndjson(f)
         starts = [k for k, e in enumerate(events) if e.get("ev") == "reset"]
-        r = ctx.tlc("partitionring", "PartitionRingTrace", extra_files={f: "trace.ndjson"}, workers=W, deadlock=False,
-                    subst={"@@ONLY@@": 0, "@@INV@@": "Done"}, timeout=1500, count=False)
+        r = tlc_run(ctx, "partitionring", "PartitionRingTrace", extra_files={f: "trace.ndjson"}, workers=min(W, 4), deadlock=False,
+                    subst={"@@ONLY@@": 0, "@@INV@@": "Done"}, timeout=1500)
         if r.timed_out or r.error:
             incon("%s: trace validation did not finish: %s" % (label, (r.error or "timeout")[:300]))
         done = set()
@@ -98,8 +153,8 @@ def validate_traces(ctx, files, label):
         if r.violated and not bad:
             rejected.append({"sig": "trace:property " + r.violated, "case": "".join(r.trace)[-3000:], "got": "recorded behaviour", "want": r.violated})
         for c in bad[:3]:
-            r2 = ctx.tlc("partitionring", "PartitionRingTrace", extra_files={f: "trace.ndjson"}, workers=1, deadlock=False,
-                         subst={"@@ONLY@@": c, "@@INV@@": "Progress"}, timeout=900, count=False)
+            r2 = tlc_run(ctx, "partitionring", "PartitionRingTrace", extra_files={f: "trace.ndjson"}, workers=1, deadlock=False,
+                         subst={"@@ONLY@@": c, "@@INV@@": "Progress"}, timeout=900)
             at = max([v["at"] for v in verif.read_ndjson(r2.out_path) if isinstance(v, dict) and "at" in v] or [0])
             lo = starts[c - 1]
             hi = starts[c] if c < len(starts) else len(events)
@@ -117,9 +172,9 @@ def validate_traces(ctx, files, label):
     return accepted, rejected
 
 
-def record_and_validate(ctx, env, label):
-    """Run the recorder (random-ring lookups + lifecycler/editor traces), let TLC decide both."""
-    d = os.path.dirname(ctx.path("rec_%s_%d" % (label, ctx._nrun), "x"))
+def record(ctx, env, label):
+    """Run the recorder (random-ring lookups + lifecycler/editor traces): go test, main thread only."""
+    d = os.path.dirname(ctx.path("rec_%s" % label, "x"))
     e = dict(env)
     e["VERIF_TRACE_DIR"] = d
     e["VERIF_CASES"] = os.path.join(d, "cases.ndjson")
@@ -131,22 +186,30 @@ def record_and_validate(ctx, env, label):
     rings = int(extra.get("recorded_rings", 0))
     if not files or not rings:
         incon("recorder wrote no trace / no rings")
+    return {"res": res, "files": files, "rings": rings, "cases": e["VERIF_CASES"], "label": label}
+
+
+def validate(ctx, rec):
+    """TLC decides what was recorded (TLC runs only: may overlap with go runs of the main thread)."""
     rejected = []
-    # random rings of 1..20 partitions with generated tokens: decided by the specification
-    r = ctx.tlc("partitionring", "PartitionRingCheck", extra_files={e["VERIF_CASES"]: "cases.ndjson"}, workers=min(W, 4),
-                deadlock=False, timeout=1500, count=False)
-    ctx.require_tlc_ok(r, "PartitionRingCheck")
-    verdicts = verif.read_ndjson(r.out_path)
-    if len(verdicts) != rings:
-        incon("PartitionRingCheck decided %d of %d recorded rings" % (len(verdicts), rings))
+    # the trace files first (the long part), the random rings of 1..20 partitions with generated tokens in parallel
+    def rings():
+        r = tlc_run(ctx, "partitionring", "PartitionRingCheck", extra_files={rec["cases"]: "cases.ndjson"}, workers=min(W, 4),
+                    deadlock=False, timeout=1500)
+        ctx.require_tlc_ok(r, "PartitionRingCheck")
+        return verif.read_ndjson(r.out_path)
+    bg = Bg(rings)
+    accepted, rej = validate_traces(ctx, rec["files"], rec["label"])
+    verdicts = bg.done()
+    if len(verdicts) != rec["rings"]:
+        incon("PartitionRingCheck decided %d of %d recorded rings" % (len(verdicts), rec["rings"]))
     for v in verdicts:
         if not v["ok"]:
             b = (v["bad"] or [{}])[0]
             rejected.append({"sig": "record-route:%s" % b.get("what", "grouping"),
                              "case": {"ring": v["id"], "tokens": v["tokens"], "active": v["active"], "seed": ctx.seed},
                              "got": v["bad"][:4], "want": "the specification's ActivePartition / KeysByPartition (field want)"})
-    accepted, rej = validate_traces(ctx, files, label)
-    return res, rings + accepted, rejected + rej
+    return rec["rings"] + accepted, rejected + rej
 
 
 def run(ctx):
@@ -164,50 +227,36 @@ def run(ctx):
     selftest = os.environ.get("VERIF_C15_SELFTEST", "")
     stages = set(os.environ.get("VERIF_C15_STAGES", "sm,gen,record").split(","))   # development aid only   # corrupt-route | corrupt-repl | corrupt-record | corrupt-trace | drop-trace
 
-    # 1. the property on the state machine, exhaustively (in the quick tier concurrently with the bindings)
-    def check_sm(cfgs):
+    _thread_safe(ctx)
+
+    # 1. the property on the state machine, exhaustively - overlapped with the bindings below (TLC only)
+    def check_sm():
+        cfgs = ["MC_sm_quick"] if quick else (["MC_sm_cov", "MC_sm_full2", "MC_sm_3p2l", "MC_sm_2p3l", "MC_sm_multi"] +
+                                              # MC_sm_three (3 partitions x 3 lifecyclers at once, 42M transitions) is opt-in
+                                              (["MC_sm_three"] if os.environ.get("VERIF_C15_BIG") else []))
         for cfg in cfgs:
-            r = ctx.tlc("partitionring", "MC_PartitionRing", cfg=cfg + ".cfg", workers=W, timeout=3600 if not quick else 900,
-                        coverage=(not quick and cfg == "MC_sm_cov"), deadlock=False)
+            r = tlc_run(ctx, "partitionring", "MC_PartitionRing", cfg=cfg + ".cfg", workers=W, timeout=3600 if not quick else 900,
+                        coverage=(not quick and cfg == "MC_sm_cov"), deadlock=False, counted=True)
             ctx.require_tlc_ok(r, cfg)
             if r.coverage_zero:
                 incon("%s: actions never taken: %s" % (cfg, r.coverage_zero))
 
-    sm_thread, sm_box = None, {}
-    if "sm" not in stages:
-        pass
-    elif quick:
-        def bg():
-            try:
-                check_sm(["MC_sm_quick"])
-            except BaseException as ex:  # re-raised in the main thread
-                sm_box["exc"] = ex
-        sm_thread = threading.Thread(target=bg)
-        sm_thread.start()
-        time.sleep(1.0)
-    else:
-        # MC_sm_three (3 partitions x 3 lifecyclers at once, 2.5M states / 42M transitions) is opt-in: VERIF_C15_BIG=1
-        check_sm(["MC_sm_cov", "MC_sm_full2", "MC_sm_3p2l", "MC_sm_2p3l", "MC_sm_multi"] +
-                 (["MC_sm_three"] if os.environ.get("VERIF_C15_BIG") else []))
+    sm = Bg(check_sm) if "sm" in stages else None
 
-    # 2. pure part, spec -> code: TLC enumerates rings and owner/instance-ring combinations, proves RoutingTotal /
-    #    ReplExact / MultiSound on each and emits the expected outputs; the harness replays every case
-    for cfg in ([] if "gen" not in stages else ["MC_gen_quick"] if quick else ["MC_gen_thorough", "MC_gen_spaced", "MC_gen_multi2", "MC_gen_quick"]):
-        nk, gaps = GEN[cfg]
-        r = ctx.tlc("partitionring", "PartitionRingGen", cfg=cfg + ".cfg", workers=W, timeout=1500, deadlock=False)
+    # 2. pure part, spec -> code, generation: TLC enumerates rings and owner/instance-ring combinations, proves
+    #    RoutingTotal / ReplExact / MultiSound on each and emits the expected outputs (background; replayed in step 4)
+    gen_cfgs = [] if "gen" not in stages else ["MC_gen_quick"] if quick else ["MC_gen_thorough", "MC_gen_spaced", "MC_gen_multi2", "MC_gen_quick"]
+
+    def generate(cfg):
+        r = tlc_run(ctx, "partitionring", "PartitionRingGen", cfg=cfg + ".cfg", workers=min(W, 4), timeout=1500, deadlock=False, counted=True)
         ctx.require_tlc_ok(r, cfg)
         if r.emitted == 0:
             incon("%s emitted no cases" % cfg)
-        env = {"VERIF_IN": r.out_path, "VERIF_NK": nk, "VERIF_GAPS": json.dumps(gaps), "VERIF_T": 2}
-        if selftest == "corrupt-expected" and cfg in ("MC_gen_quick", "MC_gen_thorough"):
-            env["VERIF_CORRUPT"] = int(os.environ.get("VERIF_C15_CORRUPT_AT", 1 + r.emitted // 2))
-        res = ctx.run_harness("c15", "^TestReplay$", env=env, timeout=1500)
-        if res.get("cases") != r.emitted:
-            incon("%s: harness replayed %s of %d cases" % (cfg, res.get("cases"), r.emitted))
-        ctx.absorb(res, cfg)
+        return r
+    gens = [Bg(lambda c=gen_cfgs[0]: generate(c))] if gen_cfgs else []
 
-    # 3. code -> spec: lookups on seeded random rings (PartitionRingCheck.tla) and every CAS of real lifecyclers +
-    #    editor on one in-memory store (PartitionRingTrace.tla)
+    # 3. code -> spec, recording: lookups on seeded random rings and every CAS of real lifecyclers + editor on one
+    #    in-memory store; PartitionRingCheck.tla / PartitionRingTrace.tla decide them in the background
     env = {"VERIF_N": 40 if quick else 200, "VERIF_TAIL": 2, "VERIF_ALPHA": "small" if quick else "full",
            "VERIF_PROFILES": 1 if quick else 2, "VERIF_RANDOM": 10 if quick else 100, "VERIF_RANDOM_LEN": 60}
     if selftest == "corrupt-ring":
@@ -216,22 +265,46 @@ def run(ctx):
         env["VERIF_CORRUPT"] = int(os.environ.get("VERIF_C15_CORRUPT_AT", 777))
     if selftest == "drop-trace":
         env["VERIF_DROP"] = int(os.environ.get("VERIF_C15_CORRUPT_AT", 778))
-    res, accepted, rejected = record_and_validate(ctx, env, "run1") if "record" in stages else ({}, 0, [])
-    if rejected:
-        # triage (DESIGN 1.4): record once more with the same seed; only a rejection that repeats is a violation
-        res2, accepted2, rejected2 = record_and_validate(ctx, env, "run2")
-        sigs2 = {m["sig"] for m in rejected2}
-        repeat = [m for m in rejected if m["sig"] in sigs2]
-        if not repeat:
-            incon("rejection did not repeat on re-recording (%s)" % rejected[0]["sig"])
-        rejected = repeat
-    res["cases"] = accepted
-    ctx.absorb(res, "record")
-    for m in rejected:
-        ctx.disagreement(m, "record")
+    rec1, val1 = None, None
+    try:
+        if "record" in stages:
+            rec1 = record(ctx, env, "run1")
+            val1 = Bg(lambda: validate(ctx, rec1))
 
-    if sm_thread is not None:
-        sm_thread.join()
-        if sm_box.get("exc"):
-            raise sm_box["exc"]
+        # 4. pure part, replay: every generated case into the real code (go test: main thread only)
+        for k, cfg in enumerate(gen_cfgs):
+            nk, gaps = GEN[cfg]
+            r = gens[k].done()
+            if k + 1 < len(gen_cfgs):
+                gens.append(Bg(lambda c=gen_cfgs[k + 1]: generate(c)))   # generate the next universe during this replay
+            genv = {"VERIF_IN": r.out_path, "VERIF_NK": nk, "VERIF_GAPS": json.dumps(gaps), "VERIF_T": 2}
+            if selftest == "corrupt-expected" and cfg in ("MC_gen_quick", "MC_gen_thorough"):
+                genv["VERIF_CORRUPT"] = int(os.environ.get("VERIF_C15_CORRUPT_AT", 1 + r.emitted // 2))
+            res = ctx.run_harness("c15", "^TestReplay$", env=genv, timeout=1500)
+            if res.get("cases") != r.emitted:
+                incon("%s: harness replayed %s of %d cases" % (cfg, res.get("cases"), r.emitted))
+            ctx.absorb(res, cfg)
+    finally:
+        # never leave a background TLC behind an exception of the main thread
+        for b in gens + [val1, sm]:
+            if b is not None:
+                b.join()
+
+    if val1 is not None:
+        accepted, rejected = val1.done()
+        if rejected:
+            # triage (DESIGN 1.4): record once more with the same seed; only a rejection that repeats is a violation
+            accepted2, rejected2 = validate(ctx, record(ctx, env, "run2"))
+            sigs2 = {m["sig"] for m in rejected2}
+            repeat = [m for m in rejected if m["sig"] in sigs2]
+            if not repeat:
+                incon("rejection did not repeat on re-recording (%s)" % rejected[0]["sig"])
+            rejected = repeat
+        res = rec1["res"]
+        res["cases"] = accepted
+        ctx.absorb(res, "record")
+        for m in rejected:
+            ctx.disagreement(m, "record")
+    if sm is not None:
+        sm.done()
     return "model_checking"
